@@ -16,7 +16,7 @@ RULE = ("every instruction list the real parser produces from (b) the real objdu
         "first '::', ',') == list of (addr, mnemonic, operands) returned by the public parse function, and "
         "encode(decode(stream)) == stream; injectivity checked directly: all ordered pairs of distinct instruction lists of "
         "length <= 2 over a 7-instruction alphabet (incl. operand-less, empty-looking and separator-adjacent fields) give "
-        "distinct streams. Non-trivial = instruction lines.")
+        "distinct streams. Non-trivial = instruction lines. Corpus family: EVERY instruction line (about 347 000) of the real objdump output of the 10 binaries under tests/binary and of the 26 listings under tests/assembly (thorough: also system binaries where present), judged line by line with the same clauses.")
 ASSUMPTIONS = ["GNU objdump 2.40 AT&T output"]
 LEVEL_TEXT = ("All instruction lists from the stated byte windows and grammar lines go through the real parser and consumer; the "
               "stream is decoded independently and compared. Exhaustive over the stated windows; bounded claim.")
@@ -33,7 +33,7 @@ def bounds(tier):
 
 
 def shards(tier):
-    return ob.window_shards(tier) + ob.eos_shards(tier) + [{"kind": "exotic"}, {"kind": "inj"}, {"kind": "long", "n": 65535}, {"kind": "long", "n": 65537}, {"kind": "grammar"}]
+    return ob.window_shards(tier) + ob.eos_shards(tier) + ob.corpus_shards(tier) + [{"kind": "exotic"}, {"kind": "inj"}, {"kind": "long", "n": 65535}, {"kind": "long", "n": 65537}, {"kind": "grammar"}]
 
 
 def run_inj(h, res, known):
@@ -81,6 +81,8 @@ def run_shard(shard, tier, h, res, known):
         run_long(shard["n"], h, res, known)
     elif shard["kind"] == "eos":
         ob.run_eos_shard(shard, tier, h, res, known, CLAUSES, ID)
+    elif shard["kind"] == "corpus":
+        ob.run_corpus(shard, h, res, known, CLAUSES)
     elif shard["kind"] == "exotic":
         ob.run_exotic(h, res, known, CLAUSES)
     elif shard["kind"] == "grammar":
